@@ -587,6 +587,10 @@ def call_spec(ex, st, name, args, kwargs):
     node = ex.eng.spec_funcs[name]
     rec = any(isinstance(d, ast.Name) and d.id == "recursive" for d in node.decorator_list)
     unint = any(isinstance(d, ast.Name) and d.id == "uninterpreted" for d in node.decorator_list)
+    opaque = any(isinstance(d, ast.Name) and d.id == "opaque" for d in node.decorator_list)
+    if opaque and not (ex.contract is not None and name in ex.contract.reveal):
+        # hidden definition: an uninterpreted symbol (keeps queries small; `reveal` in a contract unfolds it)
+        unint = True
     params = [a.arg for a in node.args.args]
     if len(args) + len(kwargs) != len(params):
         raise Unsupported(f"spec function {name}: wrong number of arguments")
@@ -631,14 +635,20 @@ def call_spec_recursive(ex, st, name, node, params, env, interpreted):
         elif isinstance(v, VFunc):
             sig.append(("func:" + v.kind, None))
             flat_args.append(v.t)
+        elif isinstance(v, VReal):
+            sig.append(("real", None))
+            flat_args.append(v.t)
+        elif isinstance(v, VOpt) and isinstance(v.val, (VInt, VReal)):
+            sig.append(("real" if isinstance(v.val, VReal) else "int", None))
+            flat_args.append(v.val.t)
         else:
             raise Unsupported(f"recursive spec function {name}: argument {p} = {v}")
     kinds = tuple(k for k, _ in sig)
     key = (name, kinds)
     if key not in ex.eng.recfuns:
-        sorts = [A if k == "seq" else I for k in kinds]
+        sorts = [A if k == "seq" else (z3.RealSort() if k == "real" else I) for k in kinds]
         ann = node.returns.id if isinstance(node.returns, ast.Name) else "int"
-        rsort = z3.BoolSort() if ann == "bool" else I
+        rsort = z3.BoolSort() if ann == "bool" else (z3.RealSort() if ann == "float" else I)
         rkind = ann
         f = z3.Function("spec_" + name, *sorts, rsort)
         ex.eng.recfuns[key] = (f, rsort)
@@ -687,4 +697,6 @@ def call_spec_recursive(ex, st, name, node, params, env, interpreted):
     if ann == "bytes":
         st.pc += key_facts(app) + [z3.Not(is_str(app)), utf8_len(app) >= 8]
         return VStr(app)
+    if ann == "float":
+        return VReal(app)
     return VBool(app) if rsort == z3.BoolSort() else VInt(app)
